@@ -47,7 +47,7 @@ func vh_C03_L1_decode() {
 }
 
 // C03.L1b: the decoder of each chunk type on its own. One chunk of each known type with a
-// value of every length 0..20 (0..12 for ABORT, ERROR and RE-CONFIG) and arbitrary content,
+// value of every length 0..20 (0..12 for ABORT, ERROR and RE-CONFIG; thorough: 0..28, 0..16) and arbitrary content,
 // alone in a packet with a valid checksum: no runtime panic on any path (this reaches the
 // length guards of each per-type decoder, which arbitrary short buffers of L1 only reach
 // for the first few types).
@@ -58,9 +58,11 @@ func vh_C03_L1_decode_each_chunk_type() {
 	t := vAllChunkTypes[vPick(len(vAllChunkTypes))]
 	maxLen := 21
 	if vtier() > 0 {
-		maxLen = 41
+		maxLen = 29 // 41 did not finish in 15 minutes (INIT parameter lists, stream lists)
 	}
 	switch t {
+	case ctHeartbeat, ctHeartbeatAck:
+		maxLen = 21 // the trailing-zero check walks the value byte by byte (one more unwinding per byte, nothing new)
 	case ctAbort, ctError, ctReconfig:
 		maxLen = 13 // nested cause / parameter lists: every further word multiplies the paths
 		if vtier() > 0 {
